@@ -8,6 +8,7 @@ import (
 	"go/token"
 	"go/types"
 	"sort"
+	"strconv"
 	"strings"
 )
 
@@ -46,6 +47,21 @@ func seqString(ev []serEvent) string {
 func (c *Ctx) progField(e ast.Expr) string {
 	fp := c.fieldPath(e)
 	if !strings.HasPrefix(fp, "<Prog>.") {
+		// the program held in a field of a helper struct (a loader or dumper with its reader/writer): l.prog.code
+		if sel, ok := stripParens(e).(*ast.SelectorExpr); ok && !strings.Contains(fp, "[") {
+			for x := sel.X; ; {
+				if t := c.typeOf(x); t != nil && isNamed(derefType(t), bclPath, "Prog") {
+					if _, isSel := stripParens(x).(*ast.SelectorExpr); isSel {
+						return sel.Sel.Name
+					}
+				}
+				inner, ok := stripParens(x).(*ast.SelectorExpr)
+				if !ok {
+					break
+				}
+				x = inner.X
+			}
+		}
 		return ""
 	}
 	parts := strings.Split(strings.TrimPrefix(fp, "<Prog>."), ".")
@@ -602,7 +618,7 @@ func (c *Ctx) armCalls(list []ast.Stmt) (calls []string, guards []string) {
 						} else if fn.Pkg() != nil && fn.Pkg().Path() == bclPath && depth < 2 {
 							// a helper holding (part of) the arm: its calls are the arm's
 							if hd := c.funcDecls[fn]; hd != nil && hd.Body != nil && !visited[hd] && len(hd.Body.List) <= 12 {
-								if sig := fn.Type().(*types.Signature); sig.Results().Len() == 2 && isErrorType(sig.Results().At(1).Type()) && isNamed(sig.Results().At(0).Type(), bclPath, "value") {
+								if sig := fn.Type().(*types.Signature); (sig.Results().Len() == 2 && isErrorType(sig.Results().At(1).Type()) && isNamed(sig.Results().At(0).Type(), bclPath, "value")) || !c.isReferenceFunc(fn) {
 									visited[hd] = true
 									walk(hd.Body.List, depth+1)
 									return true
@@ -672,6 +688,35 @@ func ruleCodecAgreement(c *Ctx, r *Report, rule string, spec *formatSpec) {
 					}
 					return true
 				})
+			}
+			if arm.Code == "" && len(cc.List) == 1 {
+				// stored by a helper the arm hands the buffer to: read off the interpreted encoder
+				dyn := key
+				var dt types.Type
+				if key != "nil" {
+					dt = c.typeOf(cc.List[0])
+				}
+				if paths, und := c.encodeStores(enc, dyn, dt); len(und) == 0 && len(paths) > 0 {
+					code, same := "", true
+					for _, pth := range paths {
+						got := ""
+						for _, it := range pth {
+							if strings.HasPrefix(it, "0=") {
+								got = strings.TrimPrefix(it, "0=")
+							}
+						}
+						if code == "" {
+							code = got
+						} else if code != got {
+							same = false
+						}
+					}
+					if same && code != "" && code != "?" {
+						if v, err := strconv.ParseInt(code, 10, 64); err == nil {
+							arm.Code = constNameOf(tcs, v)
+						}
+					}
+				}
 			}
 			encArms[key] = arm
 		}
@@ -1308,20 +1353,45 @@ func ruleLoadGating(c *Ctx, r *Report, rule string) {
 	}
 	var loadCall *ast.CallExpr
 	var errObj, progObj types.Object
-	ast.Inspect(fd.Body, func(n ast.Node) bool {
-		as, ok := n.(*ast.AssignStmt)
-		if !ok || len(as.Rhs) != 1 || len(as.Lhs) != 1 {
-			return true
-		}
-		if call, ok := as.Rhs[0].(*ast.CallExpr); ok && c.calleeName(call) == "Prog.Load" {
-			loadCall = call
-			errObj = c.objOfExpr(as.Lhs[0])
-			if sel, ok := call.Fun.(*ast.SelectorExpr); ok {
-				progObj = c.objOfExpr(sel.X)
+	// in LoadProg itself, or in the function it hands the whole job to (return helper(...))
+	for depth := 0; depth < 3 && loadCall == nil; depth++ {
+		ast.Inspect(fd.Body, func(n ast.Node) bool {
+			as, ok := n.(*ast.AssignStmt)
+			if !ok || len(as.Rhs) != 1 || len(as.Lhs) != 1 {
+				return true
 			}
+			if call, ok := as.Rhs[0].(*ast.CallExpr); ok && c.calleeName(call) == "Prog.Load" {
+				loadCall = call
+				errObj = c.objOfExpr(as.Lhs[0])
+				if sel, ok := call.Fun.(*ast.SelectorExpr); ok {
+					progObj = c.objOfExpr(sel.X)
+				}
+			}
+			return true
+		})
+		if loadCall != nil {
+			break
 		}
-		return true
-	})
+		var next *ast.FuncDecl
+		ast.Inspect(fd.Body, func(n ast.Node) bool {
+			rs, ok := n.(*ast.ReturnStmt)
+			if !ok || len(rs.Results) != 1 {
+				return true
+			}
+			if call, ok := stripParens(rs.Results[0]).(*ast.CallExpr); ok {
+				if fn, ok := c.callee(call).(*types.Func); ok && fn.Pkg() != nil && fn.Pkg().Path() == bclPath {
+					if hd := c.funcDecls[fn]; hd != nil && hd.Body != nil && hd != fd {
+						next = hd
+					}
+				}
+			}
+			return true
+		})
+		if next == nil {
+			break
+		}
+		fd = next
+	}
 	if loadCall == nil || errObj == nil || progObj == nil {
 		r.bad(rule, "LoadProg", "the call err := prog.Load(r) was not found", c.pos(fd.Pos()))
 		return
